@@ -20,7 +20,7 @@ HARNESS = os.path.join(ROOT, "harness")
 WORK = os.path.join(ROOT, "work")
 EVID = os.path.join(ROOT, "evidence")
 REPLAYS = os.path.join(ROOT, "replays")
-VDRIVE = os.path.join(HARNESS, "target", "debug", "vdrive")
+VDRIVE = os.environ.get("VERIF_VDRIVE") or os.path.join(HARNESS, "target", "debug", "vdrive")      # VERIF_VDRIVE: dev aid (bin/coverage)
 JAR = "/opt/veriftools/tla/tla2tools.jar:/opt/veriftools/tla/CommunityModules-deps.jar"
 NCPU = int(os.environ.get("VERIF_WORKERS", "0")) or min(16, os.cpu_count() or 4)
 
